@@ -26,7 +26,8 @@ def sources(chk: Check, tier: str):
     plans = [("lexM", "markup-small" if not thorough else "markup", 4 if not thorough else 4, "", ""),
              ("lexE-out", "expr-small" if not thorough else "expr", 3 if not thorough else 4, "{{ ", " }}"),
              ("lexE-if", "expr-small", 3 if not thorough else 4, "{% if ", " %}a{% endif %}"),
-             ("lexE-for", "expr-small", 2 if not thorough else 3, "{% for i in ", " %}{{ i }}{% endfor %}"),
+             ("lexE-for", "expr-small", 3, "{% for i in ", " %}{{ i }}{% endfor %}"),
+             ("lexE-cycle", "expr-small", 3 if not thorough else 4, "{% cycle ", ", 'b' %}"),
              ("lexE-liquid", "expr-small", 2 if not thorough else 3, "{% liquid echo ", "\n assign y = 1 %}")]
     lines = []
     for focus, alpha, n, pre, suf in plans:
@@ -51,6 +52,44 @@ def signature(b) -> str:
     return f"{b['clause']}:{tr['id'].split('-')[0]}:{','.join(kinds)[:80]}"
 
 
+def judge_starts(rec, opts):
+    """S->C: the top-level nodes of a generated program begin exactly where the specification's
+    text for them begins (LiquidGen!ExportStarts), and a node that is a single piece of markup
+    (text, output, non-block tag, comment) ends exactly where that text ends."""
+    from liquid2 import Environment
+    from liquid2.exceptions import LiquidError
+
+    from .replay import conc
+    env = opts.get("_env")
+    if env is None:
+        from liquid2.shopify import Environment as ShopifyEnv
+        env = opts["_env"] = ShopifyEnv()
+    src = conc(rec["src"])
+    try:
+        t = env.from_string(src)
+    except LiquidError:
+        return []
+    got = [(n.token.start, n.token.stop) for n in t.nodes]
+    want = rec["starts"]
+    kinds = "+".join(rec["kinds"])[:60]
+    if len(got) != len(want):
+        return [(f"node-count:{kinds}", {"src": src, "want": want, "got": got})]
+    if [g[0] for g in got] != want:
+        return [(f"node-start:{kinds}", {"src": src, "want": want, "got": got})]
+    single = {"text", "out", "echo", "assign", "comment", "raw", "incr", "decr", "cycle", "break", "continue", "include", "render", "call", "extends"}
+    for i, k in enumerate(rec["kinds"]):
+        if k in single and k != "raw" and got[i][1] != want[i] + rec["lens"][i]:
+            return [(f"node-stop:{k}", {"src": src, "node": i, "want": want[i] + rec["lens"][i], "got": got[i]})]
+    return []
+
+
+def _judge_starts(rec, opts):
+    return judge_starts(rec, _SOPTS)
+
+
+_SOPTS: dict = {}
+
+
 def check(tier: str, pid: str = "C17", is_mine=mine) -> int:
     chk = Check(pid, tier)
     chk.assumptions += ["sources are over the model alphabet (ASCII + the placeholder table of spec/concrete.json)",
@@ -69,6 +108,18 @@ def check(tier: str, pid: str = "C17", is_mine=mine) -> int:
             chk.violation(signature(b), b)
     for l in lines[:: max(1, len(lines) // 5)][:5]:
         chk.cov["samples"].append(l)
+    if pid == "C17":
+        from . import gen
+        for module, name, consts, q, t in (("MC_Flow", "starts-flow", {}, 2, 3), ("MC_Trim", "starts-markers", {"Variant": '"markers"'}, 3, 4),
+                                          ("MC_Scopes", "starts-scopes", {}, 2, 3), ("MC_Sites", "starts-sites", {}, 2, 3)):
+            r = gen.run_focus(chk, module, name, max_top=t if tier == "thorough" else q, extra_constants=consts,
+                              export="ExportStarts", invariants=())
+            if r is None:
+                continue
+            try:
+                gen.replay_file(chk, r.workdir / "out.ndjson", "harness.c17", "_judge_starts")
+            finally:
+                r.cleanup()
     chk.cov["exhaustive"] = True
     chk.cov["explanation"] = "exhaustive over the listed alphabets/lengths; corpus mutants are sampled by VERIF_SEED"
     return chk.finish()
